@@ -171,7 +171,10 @@ def real_call(arrs, memo, spec):
         return memo.fn(*[np.dtype(n) for n in spec[1]])
     if k == "P":
         x = arrs[spec[1]]
-        return {"sum": lambda: x.sum(axis=0), "neg": lambda: -x, "idx": lambda: x[..., 1], "nnz": lambda: x.nnz}[spec[2]]()
+        # operations that touch NO shared mutable state even on a cache-enabled array (checked: they hit none of
+        # the protocols' scheduling points).  NB: reductions (x.sum) are NOT among them — COO.reduce goes through
+        # self.transpose / .reshape and hence through the cache; they are exercised by the mixed workloads.
+        return {"abs": lambda: abs(x), "neg": lambda: -x, "idx": lambda: x[..., 1], "nnz": lambda: x.nnz}[spec[2]]()
     raise ValueError(spec)
 
 
@@ -493,10 +496,11 @@ def scenarios(tier, rng):
         dict(name="A_pre_csc", setup=[A(1, "csc")], threads=[[A(1, "csr"), A(1, "csr")], [A(1, "csr"), A(1, "csc")]]),
         # --- dict memo
         dict(name="M_2x2", setup=[], threads=[[M("int64", "float64"), M("int8",)], [M("int64", "float64"), M("int64", "float64")]]),
-        dict(name="M_2x3", setup=[], threads=[[M("int64",), M("int8",), M("int64",)], [M("int8",), M("int64",), M("int8",)]]),
+        dict(name="M_3x1", setup=[], threads=[[M("int64",), M("int8",), M("int64",)], [M("int64",)]]),
         # --- all three kinds of shared state together
-        dict(name="mix_TAM", setup=[], threads=[[T(1, (1, 0)), A(1, "csr")], [M("int64",), T(1, (1, 0)), P(1, "sum")]]),
-        dict(name="mix_AMR", setup=[R(1, (2, 6))], threads=[[A(1, "csc"), M("int64",)], [R(1, (4, 3)), M("int64",)]]),
+        dict(name="mix_TA_M", setup=[], threads=[[T(1, (1, 0)), A(1, "csr")], [M("int64",), P(1, "abs")]]),
+        dict(name="mix_Acsc_R", setup=[R(1, (2, 6))], threads=[[A(1, "csc")], [R(1, (4, 3))]]),
+        dict(name="mix_A_MA", setup=[], threads=[[A(1, "csr")], [M("int64",), A(1, "csr")]]),
     ]
     if tier != "quick":
         ex += [
@@ -504,6 +508,9 @@ def scenarios(tier, rng):
                  threads=[[T(0, AXES3[3])], [T(0, AXES3[4]), T(0, a0)]]),
             dict(name="R_prefilled_1x2", setup=[R(0, s2)], threads=[[R(0, s0)], [R(0, s1), R(0, s0)]]),
             dict(name="TR_same_array_2x2", setup=[T(0, a2)], threads=[[T(0, a0), R(0, s0)], [R(0, s1), T(0, a0)]]),
+            dict(name="M_2x3", setup=[], threads=[[M("int64",), M("int8",), M("int64",)], [M("int8",), M("int64",), M("int8",)]]),
+            dict(name="mix_TAM_2x3", setup=[], threads=[[T(1, (1, 0)), A(1, "csr")], [M("int64",), P(1, "abs"), T(1, (1, 0))]]),
+            dict(name="mix_AMR_2x2", setup=[R(1, (2, 6))], threads=[[A(1, "csc"), M("int64",)], [R(1, (4, 3)), M("int64",)]]),
             dict(name="T_2x3", setup=[T(0, a2)], threads=[[T(0, a0), T(0, a1), T(0, a0)], [T(0, a1), T(0, AXES3[3])]]),
             dict(name="R_2x2_prefilled", setup=[R(0, s2)], threads=[[R(0, s0), R(0, s1)], [R(0, s1), R(0, s0)]]),
             dict(name="A_3x2", setup=[], threads=[[A(1, "csc"), A(1, "csr"), A(1, "csc")], [A(1, "csr"), A(1, "csc")]]),
@@ -512,7 +519,7 @@ def scenarios(tier, rng):
     # random protocol programs for 3-4 threads
     pool = ([T(0, ax) for ax in AXES3] + [R(0, sh) for sh in SHAPES3[:4]] + [T(1, (1, 0))] +
             [R(1, sh) for sh in SHAPES2[:2]] + [A(1, "csr"), A(1, "csc")] +
-            [M("int64",), M("int8", "int64")] + [P(0, "sum"), P(1, "neg"), T(0, (0, 1, 2))])
+            [M("int64",), M("int8", "int64")] + [P(0, "abs"), P(1, "neg"), T(0, (0, 1, 2))])
     rnd = []
     for i in range(8 if tier == "quick" else 30):
         n = rng.choice([3, 4])
@@ -547,7 +554,7 @@ IMPORTS = "From Verif Require Import Py S_threads Threads C13Judge."
 
 def d13_replay_py(scn, sched_):
     job = {"scenario": scn, "sched": list(sched_)}
-    return ("import sys,json; sys.path.insert(0,'/verif/tools'); sys.path.insert(0,'/repo'); from props import c13; "
+    return (f"import sys,json; sys.path.insert(0,'/verif/tools'); sys.path.insert(0,{vlib.REPO!r}); from props import c13; "
             f"print(json.dumps(c13.impl_schedule({json.dumps(job)})['execs'][0]))")
 
 
@@ -775,12 +782,12 @@ def impl_dispatch(case):
 
 
 def _mixed_replay(job):
-    return ("import sys,json; sys.path.insert(0,'/verif/tools'); sys.path.insert(0,'/repo'); from props import c13; "
+    return (f"import sys,json; sys.path.insert(0,'/verif/tools'); sys.path.insert(0,{vlib.REPO!r}); from props import c13; "
             f"r=c13.impl_mixed({json.dumps(job)}); print(json.dumps([[x['progs'],x['outs'],x['expected']] for x in r['runs']]))")
 
 
 def _stress_replay(job):
-    return ("import sys,json; sys.path.insert(0,'/verif/tools'); sys.path.insert(0,'/repo'); from props import c13; "
+    return (f"import sys,json; sys.path.insert(0,'/verif/tools'); sys.path.insert(0,{vlib.REPO!r}); from props import c13; "
             f"print(json.dumps(c13.impl_stress({json.dumps(job)})))")
 
 
